@@ -362,7 +362,7 @@ class VmControlData(TlbScheme):
     def serialize(cls, value: "VmControlData") -> Cell:
         builder = Builder()
 
-        if value.nargs:
+        if value.nargs is not None:
             builder.store_bit_int(1)
             builder.store_uint(value.nargs, 13)
         else:
@@ -376,7 +376,7 @@ class VmControlData(TlbScheme):
 
         builder.store_cell(VmSaveList.serialize(value.save))
 
-        if value.cp:
+        if value.cp is not None:
             builder.store_bit_int(1)
             builder.store_int(value.cp, 16)
         else:
